@@ -1,0 +1,11 @@
+/*
+ *  Verification hooks (cargo feature `verif`, off by default).
+ *
+ *  Re-exports of crate-private items and one-line forwarders to private functions, so that the
+ *  runtime-assertion crate under /verif can call the real code. Nothing here changes behaviour.
+ */
+
+pub use crate::auth::{JwtClaims, Privileges, pattern_matches};
+pub use crate::store::{AffectedLsSubscribers, Node, Store, StoreError, StoreNode, verif_lock::VerifLock};
+pub use crate::subscribers::{EventSender, LsSubscriber, Subscriber, Subscribers};
+pub use crate::worterbuch::{Worterbuch, verif_check_for_read_only_key as check_for_read_only_key};
